@@ -47,6 +47,26 @@ def no_metadata_reads(ctx, rid, roots):
                  % (src(bad[1])[:60], bad[0].qual), path=bad[2] if bad else None)
 
 
+def builders_pure(ctx, rid, E=None):
+    """The sat builders neither mutate their operands nor return one of them (premise of the gate methods, too)."""
+    P, R = ctx.prog, ctx.res
+    if E is None:
+        E = Effects(P, R)
+        E.build()
+    fns = {b: P.func('_satisfiability.%s' % b) for b in BUILDERS}
+    for name, fn in fns.items():
+        fe = E.effects(fn)
+        s = E.summary(fn)
+        bad = [(n, o, how) for n, os_, how in fe.mutations for o in os_ if root(o).startswith('param:')]
+        ctx.inst(rid, fn, 'def %s (mutation)' % name, not bad,
+                 "no operand-origin object is mutated" if not bad else
+                 "operand `%s` may be mutated in %s: %s (line %s)" % (bad[0][1], name, bad[0][2], getattr(bad[0][0], 'lineno', '?')))
+        alias = sorted(o for o in s['ret'] if root(o).startswith('param:') and not o.startswith('elem:'))
+        ctx.inst(rid, fn, 'def %s (result)' % name, not alias,
+                 "every result is a freshly constructed object" if not alias else
+                 "%s can return its operand itself (%s): in-place arithmetic on the result modifies the input" % (name, alias))
+
+
 def rules(ctx):
     P, R = ctx.prog, ctx.res
     E = Effects(P, R)
@@ -57,17 +77,7 @@ def rules(ctx):
     ctx.rule('R07.4', "a model-valued expression is never truth-tested (an identically false sub-expression is an "
                       "empty, falsy model)", floor=8)
     fns = {b: P.func('_satisfiability.%s' % b) for b in BUILDERS}
-    for name, fn in fns.items():
-        fe = E.effects(fn)
-        s = E.summary(fn)
-        bad = [(n, o, how) for n, os_, how in fe.mutations for o in os_ if root(o).startswith('param:')]
-        ctx.inst('R07.1', fn, 'def %s (mutation)' % name, not bad,
-                 "no operand-origin object is mutated" if not bad else
-                 "operand `%s` may be mutated in %s: %s (line %s)" % (bad[0][1], name, bad[0][2], getattr(bad[0][0], 'lineno', '?')))
-        alias = sorted(o for o in s['ret'] if root(o).startswith('param:') and not o.startswith('elem:'))
-        ctx.inst('R07.1', fn, 'def %s (result)' % name, not alias,
-                 "every result is a freshly constructed object" if not alias else
-                 "%s can return its operand itself (%s): in-place arithmetic on the result modifies the input" % (name, alias))
+    builders_pure(ctx, 'R07.1', E)
     # BUFFER: model branch copies
     bf = fns['BUFFER']
     x = bf.params[0]
@@ -161,6 +171,18 @@ def rules(ctx):
                  "only model-versus-label tests" if not bad else
                  "`%s` treats operands of type %s specially: such a value is a legitimate variable label (any hashable), so the "
                  "gate computes a different function for it" % (src(bad[0][0])[:60], bad[0][1]))
+    ctx.rule('R07.8', "every operand given takes part: the operand tuple is not replaced by a filtered / unpacked / reordered one", floor=6)
+    for name, fn in fns.items():
+        va = fn.node.args.vararg.arg if fn.node.args.vararg else None
+        if va is None:
+            continue
+        reb = [n for n in ast.walk(fn.node) if isinstance(n, (ast.Assign, ast.AugAssign, ast.AnnAssign)) and any(
+            isinstance(x, ast.Name) and x.id == va and isinstance(x.ctx, ast.Store)
+            for t in (n.targets if isinstance(n, ast.Assign) else [n.target]) for x in ast.walk(t))]
+        ctx.inst('R07.8', fn, reb[0] if reb else 'operands of %s' % name, not reb,
+                 "the operands are used as given" if not reb else
+                 "`%s` replaces the operand tuple: operands that are dropped (e.g. identically-zero models) or unpacked (a tuple "
+                 "is a legitimate label) change the gate - with no operand left the empty-gate constant is returned" % src(reb[0])[:60])
     ctx.rule('R07.6', "no function reachable from a builder reads the display metadata `name` of an operand", floor=8)
     no_metadata_reads(ctx, 'R07.6', [(fn, None) for fn in fns.values()])
 
